@@ -61,6 +61,16 @@ def build():
     h.root('rotate_point_b3', g + '(a: &Basis3<S>, p: Point3<S>) -> Point3<S>', 'Rotation::rotate_point(a, p)', ('value', A.matvec(b3, v3)))
     q = sq('a0')
     h.root('rotate_point_q', g + '(a: &Quaternion<S>, p: Point3<S>) -> Point3<S>', 'Rotation::rotate_point(a, p)', ('value', specs.qrot(q, v3)))
+    # the quaternion as a `Rotation` (the algebra itself is C04's): r * invert(r) = one(), composition is the Hamilton product
+    h.root('rotate_vector_q', g + '(a: &Quaternion<S>, v: Vector3<S>) -> Vector3<S>', 'Rotation::rotate_vector(a, v)', ('value', specs.qrot(q, v3)))
+    qn2 = specs.qnorm2(q)
+    qc = specs.qconj(q)
+    h.root('invert_q', g + '(a: &Quaternion<S>) -> Quaternion<S>', 'Rotation::invert(a)', ('value', [[x / qn2 for x in qc[1]], qc[0] / qn2]))
+    h.root('q_times_invert_q', g + '(a: Quaternion<S>) -> Quaternion<S>', 'a * Rotation::invert(&a)', ('value', [[ZERO] * 3, ONE]))
+    h.root('invert_q_times_q', g + '(a: Quaternion<S>) -> Quaternion<S>', 'Rotation::invert(&a) * a', ('value', [[ZERO] * 3, ONE]))
+    h.root('one_q', g + '() -> Quaternion<S>', '<Quaternion<S> as One>::one()', ('value', [[ZERO] * 3, ONE]))
+    pq = specs.qmul(q, sq('a1'))
+    forms4(h, 'mul_q', g, 'Quaternion<S>', 'Quaternion<S>', 'Quaternion<S>', '*', [list(pq[1]), pq[0]])
     h.root('m2_from_b2', g + '(a: Basis2<S>) -> Matrix2<S>', 'Matrix2::from(a)', ('value', b2), rule='K1 copy provenance')
     # 2-D images of the basis vectors
     t = El.v('a0.0')
@@ -156,7 +166,7 @@ def run(tier):
     run.floor('roots', len(run.roots), len(h.specs))
     run.notes['monomorphic_method_syntax_roots'] = len([n_ for n_ in msyn if n_ in run.roots])
     return run.finish(
-        explanation='For angle arguments in Rad and in Deg: Matrix2/Basis2::from_angle equal the counter-clockwise 2-D rotation table (images of the basis vectors read off the composed code); Matrix3/Matrix4/Basis3::from_angle_x/y/z equal the elementary tables, from_axis_angle equals the Rodrigues matrix c I + s [a]x + (1-c) a a^T entry by entry (sin/cos of the radian measure as function symbols), and from_axis_angle about a unit axis equals from_angle_*; Quaternion::from_axis_angle = (cos t/2, a sin t/2) with the half factor exact; the stated action v cos t + (a x v) sin t + a(a.v)(1-cos t) is checked on Matrix3*v, Basis3, Matrix4 (as a direction) and the quaternion (under the double-angle relations) for unit a. Basis2/Basis3 Mul = matrix product, one = identity, invert = matrix inverse panicking exactly on a zero determinant, rotate_point = rotate_vector of the position vector for Basis2, Basis3, Quaternion. Fixing the axis, orthonormality, det = +1 and angle additivity are verified on the spec side.',
+        explanation='For angle arguments in Rad and in Deg: Matrix2/Basis2::from_angle equal the counter-clockwise 2-D rotation table (images of the basis vectors read off the composed code); Matrix3/Matrix4/Basis3::from_angle_x/y/z equal the elementary tables, from_axis_angle equals the Rodrigues matrix c I + s [a]x + (1-c) a a^T entry by entry (sin/cos of the radian measure as function symbols), and from_axis_angle about a unit axis equals from_angle_*; Quaternion::from_axis_angle = (cos t/2, a sin t/2) with the half factor exact; the stated action v cos t + (a x v) sin t + a(a.v)(1-cos t) is checked on Matrix3*v, Basis3, Matrix4 (as a direction) and the quaternion (under the double-angle relations) for unit a. Basis2/Basis3 Mul = matrix product, one = identity, invert = matrix inverse panicking exactly on a zero determinant, rotate_point = rotate_vector of the position vector for Basis2, Basis3, Quaternion. The quaternion as a Rotation: rotate_vector = v + 2 qv x (qv x v + s v), invert = conj/|q|^2 with q*invert(q) = invert(q)*q = one() on the composed code, one() = (1; 0), Mul (all four spellings) = the Hamilton product. Fixing the axis, orthonormality, det = +1 and angle additivity are verified on the spec side.',
         trusted_base=['rustc nightly type checking / trait resolution / MIR construction', 'mirsum abstract interpreter; sin/cos/sin_cos as uninterpreted symbols of the radian measure', 'rules/algebra.py, rules/specs.py (selfcheck)', 'constant pi/180 taken at its exact binary value'],
         not_decided=['agreement of the platform sin/cos with the real functions'],
         exhaustive=True)
